@@ -95,6 +95,9 @@ func c20match(o *c20obj, filters [][]any) bool {
 
 func scenC20(w *vsim.World, spec *vsim.Spec) {
 	rnd := w.NewRand("gen")
+	// in two runs of three the fan-out goroutines may lose the processor before any statement of
+	// splitListRequest / tryLocalThenRemotes (rule R9), e.g. between a backend answer and its report
+	w.PreemptOn = w.Choose("statement-preemption", 3) != 0
 	nRemotes := w.Range("remotes", 1, 3)
 	maxItems := []int{1000, 1000, 1000, 1000, 3, 5, 8, 12}[w.Choose("max-items-per-response", 8)]
 	cfg := fedConfig{
